@@ -1172,3 +1172,6 @@ fn check_result(
         out.count("leaf_deliveries_checked");
     }
 }
+
+#[path = "seeker.rs"]
+pub mod seeker;
